@@ -1,9 +1,92 @@
 import DspVerif.Driver.Proto
-/-! driver handlers for C20 (stub: no correspondence cases handled yet) -/
+import DspVerif.Model.Dynamics
+/-! driver handlers for C20: Compressor / Limiter / NoiseGate / Agc models at `Float`.
+
+Case layout (all tags): `<tag> <ctor args…> <dec> <nframes> <frame_1> … <frame_nframes>`, a frame being
+`k v1 … vk` (real) or `k re1 im1 …` (complex).  One processor object is constructed and fed the frames
+one `process` call after the other (state persists).  Output per frame: the gain and the output vector,
+decimated: samples `i` with `i % dec = 0` plus the last one.  A throwing constructor prints `ERR`. -/
 namespace Dsp.Driver
-open Dsp.Proto
+open Dsp.Proto Dsp.Dynamics
+
+def decim (dec : Nat) (a : Array Float) : Array Float := Id.run do
+  if dec ≤ 1 then return a
+  let mut r : Array Float := #[]
+  for i in [0:a.size] do
+    if i % dec == 0 || i + 1 == a.size then r := r.push a[i]!
+  return r
+
+def decimC (dec : Nat) (a : Array (Cx Float)) : Array (Cx Float) := Id.run do
+  if dec ≤ 1 then return a
+  let mut r : Array (Cx Float) := #[]
+  for i in [0:a.size] do
+    if i % dec == 0 || i + 1 == a.size then r := r.push a[i]!
+  return r
+
+def takeFrames : Nat → List String → Option (List (Array Float))
+  | 0, [] => some []
+  | 0, _ => none
+  | n + 1, toks => do
+    let (a, rest) ← takeFloats toks
+    let t ← takeFrames n rest
+    pure (a :: t)
+
+def takeFramesC : Nat → List String → Option (List (Array (Cx Float)))
+  | 0, [] => some []
+  | 0, _ => none
+  | n + 1, toks => do
+    let (a, rest) ← takeCxs toks
+    let t ← takeFramesC n rest
+    pure (a :: t)
+
+/-- run frames through a `state → frame → state × gain × out` processor -/
+def runFrames {σ : Type} (dec : Nat) (proc : σ → Array Float → σ × Array Float × Array Float)
+    (s : σ) (frames : List (Array Float)) : String :=
+  let (_, outs) := frames.foldl (fun (acc : σ × List String) f =>
+    let r := proc acc.1 f
+    (r.1, (fmtFloatArr (decim dec r.2.2)) :: (fmtFloatArr (decim dec r.2.1)) :: acc.2)) (s, [])
+  String.intercalate " " outs.reverse
 
 def h20 : List String → Option String
+  | "comp" :: fs :: t :: ratio :: w :: ta :: tr :: dec :: nf :: rest => do
+    let fs ← fs.toNat?; let t ← parseF t; let ratio ← parseI ratio; let w ← parseF w
+    let ta ← parseF ta; let tr ← parseF tr; let dec ← dec.toNat?; let nf ← nf.toNat?
+    let frames ← takeFrames nf rest
+    match Comp.init fs t ratio w ta tr with
+    | .error _ => some "ERR"
+    | .ok p => some (runFrames dec (fun g x => processWith (Comp.step p) g x) (0.0 : Float) frames)
+  | "lim" :: fs :: t :: w :: ta :: tr :: dec :: nf :: rest => do
+    let fs ← fs.toNat?; let t ← parseF t; let w ← parseF w
+    let ta ← parseF ta; let tr ← parseF tr; let dec ← dec.toNat?; let nf ← nf.toNat?
+    let frames ← takeFrames nf rest
+    match Lim.init fs t w ta tr with
+    | .error _ => some "ERR"
+    | .ok p => some (runFrames dec (fun g x => processWith (Lim.step p) g x) (0.0 : Float) frames)
+  | "gate" :: fs :: t :: ta :: tr :: th :: dec :: nf :: rest => do
+    let fs ← fs.toNat?; let t ← parseF t
+    let ta ← parseF ta; let tr ← parseF tr; let th ← parseF th; let dec ← dec.toNat?; let nf ← nf.toNat?
+    let frames ← takeFrames nf rest
+    match Gate.init fs t ta tr th with
+    | .error _ => some "ERR"
+    | .ok p => some (runFrames dec (fun s x => Gate.process p s x) (Gate.init0 : GateState Float) frames)
+  | "agcr" :: tg :: mg :: n :: tri :: tfa :: dec :: nf :: rest => do
+    let tg ← parseF tg; let mg ← parseF mg; let n ← parseI n
+    let tri ← parseF tri; let tfa ← parseF tfa; let dec ← dec.toNat?; let nf ← nf.toNat?
+    let frames ← takeFrames nf rest
+    match Agc.init tg mg n tri tfa with
+    | .error _ => some "ERR"
+    | .ok (p, s) => some (runFrames dec (fun s x => Agc.processR p s x) s frames)
+  | "agcc" :: tg :: mg :: n :: tri :: tfa :: dec :: nf :: rest => do
+    let tg ← parseF tg; let mg ← parseF mg; let n ← parseI n
+    let tri ← parseF tri; let tfa ← parseF tfa; let dec ← dec.toNat?; let nf ← nf.toNat?
+    let frames ← takeFramesC nf rest
+    match Agc.init tg mg n tri tfa with
+    | .error _ => some "ERR"
+    | .ok (p, s) =>
+      let (_, outs) := frames.foldl (fun (acc : AgcState Float × List String) f =>
+        let r := Agc.processC p acc.1 f
+        (r.1, (fmtCxArr (decimC dec r.2.2)) :: (fmtFloatArr (decim dec r.2.1)) :: acc.2)) (s, [])
+      some (String.intercalate " " outs.reverse)
   | _ => none
 
 end Dsp.Driver
